@@ -100,6 +100,34 @@ Theorem C06_getters : forall b,
 Proof. exact getters_of_logic. Qed.
 Print Assumptions C06_getters.
 
+(** Iterator-driven completion.  The end of a wrapped iterator (ProgressBarIter::next / next_back
+    / poll_next returning None, src/iter.rs:125-126, :149-150, :319-323) is not an op of Sys.v but
+    [iter_none_step] (SimSpec.v; C04_iter): nothing on a finished bar, finish_using_style
+    otherwise - in particular NO test of is_hidden().  On the logic projection it is
+    [l_iter_none], again without reading any target, so C06_equiv extends to histories that
+    contain it: a hidden bar driven to exhaustion is finished exactly like its visible twin,
+    BEFORE the last handle is dropped ... *)
+Theorem C06_iter_none_logic : forall W H fails s now b,
+  bars_logic (fst (fst (iter_none_step W H fails s now b)))
+  = updN (bars_logic s) (N.to_nat b) l_iter_none.
+Proof. exact iter_none_logic. Qed.
+Print Assumptions C06_iter_none_logic.
+
+Theorem C06_iter_none_twins : forall W1 H1 f1 W2 H2 f2 s1 s2 now b,
+  bars_logic s1 = bars_logic s2 ->
+  bars_logic (fst (fst (iter_none_step W1 H1 f1 s1 now b)))
+  = bars_logic (fst (fst (iter_none_step W2 H2 f2 s2 now b))).
+Proof. exact iter_none_twins. Qed.
+Print Assumptions C06_iter_none_twins.
+
+(** ... and it is silent there. *)
+Theorem C06_iter_none_silent : forall W H fails s now b,
+  bar_hidden s b = true ->
+  snd (fst (iter_none_step W H fails s now b)) = [] /\
+  s_calls (fst (fst (iter_none_step W H fails s now b))) = s_calls s.
+Proof. exact iter_none_silent. Qed.
+Print Assumptions C06_iter_none_silent.
+
 (** Non-vacuity: a visible system (a standalone bar on a 20 Hz terminal, a member of a visible
     MultiProgress, a detached bar) draws; its hidden twin is all_hidden, emits nothing on the
     same history and has the same logic after every op. *)
